@@ -40,10 +40,16 @@ def lean_obligations(pid: str, theorems: List[str], tier: str, regen: bool = Tru
     rc, out = sh(["lake", "build", "KodaModel", "kvdriver"], LEAN)
     res["build_ok"] = rc == 0
     if rc != 0:
-        res["problems"].append("lake build failed:\n" + out[-3000:])
+        errs = [l for l in out.splitlines() if l.startswith("error:") or "✖" in l]
+        res["problems"].append("lake build failed (a proof obligation no longer checks): " + " | ".join(errs)[:1500])
         # which obligations are lost?  every theorem of the property counts as undischarged
         res["obligations"] = max(1, len(theorems))
+        # the model driver does not depend on the proof files: build it alone so that the failing-input
+        # search can still run the model next to the real code
+        rc2, out2 = sh(["lake", "build", "kvdriver"], LEAN)
+        res["driver_ok"] = rc2 == 0
         return res
+    res["driver_ok"] = True
     # forbidden constructs anywhere in the library
     bad = []
     for root, _, files in os.walk(os.path.join(LEAN, "KodaModel")):
